@@ -599,7 +599,7 @@ def _plan(tier: str, seed: int) -> list[dict[str, Any]]:
     rng.shuffle(combos)
     # guaranteed spread first, then seeded extras
     fixed = [(P, False, 0, "cursor"), (X, False, 1, "call"), (C, False, 1, "both"), (C, True, 0, "cursor"), (X, True, 0, "call"), (P, False, 2, "call")]
-    nsamples = 12 if tier == "quick" else 66
+    nsamples = 20 if tier == "quick" else 120
     chosen = fixed + [c for c in combos if c not in fixed][: nsamples - len(fixed)]
     for k, (method, cancel, stage, slot) in enumerate(chosen):
         jobs.append({"kind": "mutate", "method": method, "cancel": cancel, "stage": stage, "slot": slot, "id": ids[(k * 5 + seed) % len(ids)] if k >= 3 else ["d_alice", "anon", "a_bNULc"][k], "exhaustive": True, "text": True, "seed": seed * 1000 + k, "tier": tier})
@@ -676,7 +676,7 @@ def main(tier: str, seed: int) -> int:
             if isinstance(v, dict):
                 chk.extra.setdefault(k, {}).update(v)
             elif isinstance(v, list):
-                chk.extra[k] = sorted(set((cur or []) + v), key=repr)
+                chk.extra[k] = sorted(set((cur or []) + v), key=lambda x: (not isinstance(x, int), x if isinstance(x, int) else repr(x)))
     chk.extra["rejection_bodies"] = {m: sorted(c) for m, c in sorted(msgs.items())}
     chk.extra["jobs"] = {k: sum(1 for j in jobs if j["kind"] == k) for k in JOBS}
     if msgs:
